@@ -592,6 +592,127 @@ Definition I_Not_not (w : Z) (self : list Z) : list Z :=
 Definition I_Rem_rem (dbg : bool) (w : Z) (self : list Z) (rhs : list Z) : outcome (list Z) :=
   Div.I_rem dbg w self rhs.
 
+(* ---- src/int/numtraits.rs (macro impls) ---- *)
+Definition U_Bounded_min_value (w : Z) (n : nat) : list Z :=
+  Core.ZERO n.
+
+Definition U_Bounded_max_value (w : Z) (n : nat) : list Z :=
+  Core.UMAX w n.
+
+Definition U_CheckedNeg_checked_neg (w : Z) (self : list Z) : option (list Z) :=
+  AddSub.U_checked_neg self.
+
+Definition U_CheckedShl_checked_shl (w : Z) (self : list Z) (rhs : Z) : option (list Z) :=
+  Shift.U_checked_shl w self rhs.
+
+Definition U_CheckedShr_checked_shr (w : Z) (self : list Z) (rhs : Z) : option (list Z) :=
+  Shift.U_checked_shr w self rhs.
+
+Definition U_CheckedEuclid_checked_div_euclid (w : Z) (self : list Z) (rhs : list Z) : option (list Z) :=
+  Div.U_checked_div_euclid w self rhs.
+
+Definition U_CheckedEuclid_checked_rem_euclid (w : Z) (self : list Z) (rhs : list Z) : option (list Z) :=
+  Div.U_checked_rem_euclid w self rhs.
+
+Definition U_Euclid_div_euclid (w : Z) (self : list Z) (rhs : list Z) : outcome (list Z) :=
+  Div.U_div_euclid w self rhs.
+
+Definition U_Euclid_rem_euclid (w : Z) (self : list Z) (rhs : list Z) : outcome (list Z) :=
+  Div.U_rem_euclid w self rhs.
+
+Definition U_WrappingNeg_wrapping_neg (w : Z) (self : list Z) : list Z :=
+  AddSub.U_wrapping_neg w self.
+
+Definition U_WrappingShl_wrapping_shl (w : Z) (self : list Z) (rhs : Z) : list Z :=
+  Shift.U_wrapping_shl w self rhs.
+
+Definition U_WrappingShr_wrapping_shr (w : Z) (self : list Z) (rhs : Z) : list Z :=
+  Shift.U_wrapping_shr w self rhs.
+
+Definition U_Pow_pow (dbg : bool) (w : Z) (self : list Z) (exp : Z) : outcome (list Z) :=
+  Pow.U_pow dbg w self exp.
+
+Definition U_Saturating_saturating_add (w : Z) (self : list Z) (rhs : list Z) : list Z :=
+  AddSub.U_saturating_add w self rhs.
+
+Definition U_Saturating_saturating_sub (w : Z) (self : list Z) (rhs : list Z) : list Z :=
+  AddSub.U_saturating_sub w self rhs.
+
+Definition U_MulAdd_mul_add (dbg : bool) (w : Z) (self : list Z) (a : list Z) (b : list Z) : outcome (list Z) :=
+  obind (Mul.U_mul dbg w self a) (fun (r1 : list Z) => (AddSub.U_add dbg w r1 b)).
+
+Definition U_One_one (w : Z) (n : nat) : list Z :=
+  Core.ONE n.
+
+Definition U_One_is_one (w : Z) (self : list Z) : bool :=
+  Core.is_one self.
+
+Definition U_Zero_zero (w : Z) (n : nat) : list Z :=
+  Core.ZERO n.
+
+Definition U_Zero_is_zero (w : Z) (self : list Z) : bool :=
+  Core.is_zero self.
+
+Definition I_Bounded_min_value (w : Z) (n : nat) : list Z :=
+  Core.IMIN w n.
+
+Definition I_Bounded_max_value (w : Z) (n : nat) : list Z :=
+  Core.IMAX w n.
+
+Definition I_CheckedNeg_checked_neg (w : Z) (self : list Z) : option (list Z) :=
+  AddSub.I_checked_neg w self.
+
+Definition I_CheckedShl_checked_shl (w : Z) (self : list Z) (rhs : Z) : option (list Z) :=
+  Shift.I_checked_shl w self rhs.
+
+Definition I_CheckedShr_checked_shr (w : Z) (self : list Z) (rhs : Z) : option (list Z) :=
+  Shift.I_checked_shr w self rhs.
+
+Definition I_CheckedEuclid_checked_div_euclid (dbg : bool) (w : Z) (self : list Z) (rhs : list Z) : outcome (option (list Z)) :=
+  Div.I_checked_div_euclid dbg w self rhs.
+
+Definition I_CheckedEuclid_checked_rem_euclid (dbg : bool) (w : Z) (self : list Z) (rhs : list Z) : outcome (option (list Z)) :=
+  Div.I_checked_rem_euclid dbg w self rhs.
+
+Definition I_Euclid_div_euclid (dbg : bool) (w : Z) (self : list Z) (rhs : list Z) : outcome (list Z) :=
+  Div.I_div_euclid dbg w self rhs.
+
+Definition I_Euclid_rem_euclid (dbg : bool) (w : Z) (self : list Z) (rhs : list Z) : outcome (list Z) :=
+  Div.I_rem_euclid dbg w self rhs.
+
+Definition I_WrappingNeg_wrapping_neg (w : Z) (self : list Z) : list Z :=
+  AddSub.I_wrapping_neg w self.
+
+Definition I_WrappingShl_wrapping_shl (w : Z) (self : list Z) (rhs : Z) : list Z :=
+  Shift.I_wrapping_shl w self rhs.
+
+Definition I_WrappingShr_wrapping_shr (w : Z) (self : list Z) (rhs : Z) : list Z :=
+  Shift.I_wrapping_shr w self rhs.
+
+Definition I_Pow_pow (dbg : bool) (w : Z) (self : list Z) (exp : Z) : outcome (list Z) :=
+  Pow.I_pow dbg w self exp.
+
+Definition I_Saturating_saturating_add (w : Z) (self : list Z) (rhs : list Z) : list Z :=
+  AddSub.I_saturating_add w self rhs.
+
+Definition I_Saturating_saturating_sub (w : Z) (self : list Z) (rhs : list Z) : list Z :=
+  AddSub.I_saturating_sub w self rhs.
+
+Definition I_MulAdd_mul_add (dbg : bool) (w : Z) (self : list Z) (a : list Z) (b : list Z) : outcome (list Z) :=
+  obind (Mul.I_mul dbg w self a) (fun (r1 : list Z) => (AddSub.I_add dbg w r1 b)).
+
+Definition I_One_one (w : Z) (n : nat) : list Z :=
+  Core.ONE n.
+
+Definition I_One_is_one (w : Z) (self : list Z) : bool :=
+  Core.is_one self.
+
+Definition I_Zero_zero (w : Z) (n : nat) : list Z :=
+  Core.ZERO n.
+
+Definition I_Zero_is_zero (w : Z) (self : list Z) : bool :=
+  Core.is_zero self.
+
 (* ---- src/int/unchecked.rs (macro impls) ---- *)
 Definition U_unchecked_add (w : Z) (self : list Z) (rhs : list Z) : option (list Z) :=
   AddSub.U_checked_add w self rhs.
@@ -768,5 +889,92 @@ Definition I_is_zero (w : Z) (self : list Z) : bool :=
 
 Definition I_is_one (w : Z) (self : list Z) : bool :=
   Core.is_one self.
+
+(* ---- src/bint/mod.rs: expansions of ilog! (defined in src/bint/mod.rs) ---- *)
+Definition I_ilog2 (w : Z) (self : list Z) : outcome (Z) :=
+  if (Core.is_negative w self) then Panic else (Pow.U_ilog2 w self).
+
+(* ---- src/bint/checked.rs: expansions of checked_ilog! (defined in src/bint/checked.rs) ---- *)
+Definition I_checked_ilog2 (w : Z) (self : list Z) : option (Z) :=
+  if (Core.is_negative w self) then None else (Pow.U_checked_ilog2 w self).
+
+(* ---- src/int/numtraits.rs: expansions of num_trait_impl! (defined in src/int/numtraits.rs) ---- *)
+Definition U_CheckedAdd_checked_add (w : Z) (self : list Z) (rhs : list Z) : option (list Z) :=
+  AddSub.U_checked_add w self rhs.
+
+Definition I_CheckedAdd_checked_add (w : Z) (self : list Z) (rhs : list Z) : option (list Z) :=
+  AddSub.I_checked_add w self rhs.
+
+Definition U_CheckedDiv_checked_div (w : Z) (self : list Z) (rhs : list Z) : option (list Z) :=
+  Div.U_checked_div w self rhs.
+
+Definition I_CheckedDiv_checked_div (dbg : bool) (w : Z) (self : list Z) (rhs : list Z) : outcome (option (list Z)) :=
+  Div.I_checked_div dbg w self rhs.
+
+Definition U_CheckedMul_checked_mul (w : Z) (self : list Z) (rhs : list Z) : option (list Z) :=
+  Mul.U_checked_mul w self rhs.
+
+Definition I_CheckedMul_checked_mul (w : Z) (self : list Z) (rhs : list Z) : option (list Z) :=
+  Mul.I_checked_mul w self rhs.
+
+Definition U_CheckedRem_checked_rem (w : Z) (self : list Z) (rhs : list Z) : option (list Z) :=
+  Div.U_checked_rem w self rhs.
+
+Definition I_CheckedRem_checked_rem (dbg : bool) (w : Z) (self : list Z) (rhs : list Z) : outcome (option (list Z)) :=
+  Div.I_checked_rem dbg w self rhs.
+
+Definition U_CheckedSub_checked_sub (w : Z) (self : list Z) (rhs : list Z) : option (list Z) :=
+  AddSub.U_checked_sub w self rhs.
+
+Definition I_CheckedSub_checked_sub (w : Z) (self : list Z) (rhs : list Z) : option (list Z) :=
+  AddSub.I_checked_sub w self rhs.
+
+Definition U_SaturatingAdd_saturating_add (w : Z) (self : list Z) (rhs : list Z) : list Z :=
+  AddSub.U_saturating_add w self rhs.
+
+Definition I_SaturatingAdd_saturating_add (w : Z) (self : list Z) (rhs : list Z) : list Z :=
+  AddSub.I_saturating_add w self rhs.
+
+Definition U_SaturatingMul_saturating_mul (w : Z) (self : list Z) (rhs : list Z) : list Z :=
+  Mul.U_saturating_mul w self rhs.
+
+Definition I_SaturatingMul_saturating_mul (w : Z) (self : list Z) (rhs : list Z) : list Z :=
+  Mul.I_saturating_mul w self rhs.
+
+Definition U_SaturatingSub_saturating_sub (w : Z) (self : list Z) (rhs : list Z) : list Z :=
+  AddSub.U_saturating_sub w self rhs.
+
+Definition I_SaturatingSub_saturating_sub (w : Z) (self : list Z) (rhs : list Z) : list Z :=
+  AddSub.I_saturating_sub w self rhs.
+
+Definition U_WrappingAdd_wrapping_add (w : Z) (self : list Z) (rhs : list Z) : list Z :=
+  AddSub.U_wrapping_add w self rhs.
+
+Definition I_WrappingAdd_wrapping_add (w : Z) (self : list Z) (rhs : list Z) : list Z :=
+  AddSub.I_wrapping_add w self rhs.
+
+Definition U_WrappingMul_wrapping_mul (w : Z) (self : list Z) (rhs : list Z) : list Z :=
+  Mul.U_wrapping_mul w self rhs.
+
+Definition I_WrappingMul_wrapping_mul (w : Z) (self : list Z) (rhs : list Z) : list Z :=
+  Mul.I_wrapping_mul w self rhs.
+
+Definition U_WrappingSub_wrapping_sub (w : Z) (self : list Z) (rhs : list Z) : list Z :=
+  AddSub.U_wrapping_sub w self rhs.
+
+Definition I_WrappingSub_wrapping_sub (w : Z) (self : list Z) (rhs : list Z) : list Z :=
+  AddSub.I_wrapping_sub w self rhs.
+
+Definition U_OverflowingAdd_overflowing_add (w : Z) (self : list Z) (rhs : list Z) : (list Z * bool) :=
+  AddSub.U_overflowing_add w self rhs.
+
+Definition I_OverflowingAdd_overflowing_add (w : Z) (self : list Z) (rhs : list Z) : (list Z * bool) :=
+  AddSub.I_overflowing_add w self rhs.
+
+Definition U_OverflowingSub_overflowing_sub (w : Z) (self : list Z) (rhs : list Z) : (list Z * bool) :=
+  AddSub.U_overflowing_sub w self rhs.
+
+Definition I_OverflowingSub_overflowing_sub (w : Z) (self : list Z) (rhs : list Z) : (list Z * bool) :=
+  AddSub.I_overflowing_sub w self rhs.
 
 End Glue.
